@@ -33,9 +33,10 @@ func init() {
 				Procs:    16,
 				Rule: "case = one input byte string. Exhaustive: every string of length <= 7 (<= 9 thorough) over 7 bytes: one representative per tokenizer class (blank, newline, backslash, single quote, double quote) and two 'other' bytes; plus a position sweep (one byte of every value at every offset of otherwise plain text of every length 1..40 and around 64/128; pairs of special bytes at every two offsets), every single byte 0..255 in five contexts (classification of all byte values), inputs of 4090..65537 bytes whose tokens and quoted spans cross buffer boundaries, and random inputs up to 200 bytes over a wider alphabet (tab, CR, VT, FF, NBSP, $, `, #, non-ASCII). " +
 					"Per input: Split's fields and completeness flag vs the reference; Scanner over a one-byte-at-a-time reader and over fixed and random fragmentations, including readers that return the last bytes together with io.EOF and readers that sometimes return (0, nil) (Next/Text, Complete after the last token, Next stays false and Err stays io.EOF afterwards); Each with early stop; Scanner.Split; Rest called after the k-th token for every k must yield exactly input[offset_k:] (also when Rest is asked for twice, a few bytes read through the first reader and the remainder through the second) and Next must then stay false; every rune U+0080..U+FFFF (and a stride of the other planes) at the start of the input and in every quoting context, plus byte-order marks, '#!', CR LF and escape sequences; a reader that fails with a non-EOF error must surface through Err; remainders from Rest kept unread while their scanners are dropped, garbage collections are forced and new scanners are created and used, then read and compared. Complete inputs without other metacharacters and without unquoted newlines are also split by dash and 'bash +B' (length <= 6 exhaustive). Reset reuse and the pooled Split run concurrently under -race. " +
+					"Tokens handed out by Text() before Rest() are kept and compared with copies made at once, after Rest, Reset and further scanning on the same scanner. " +
 					"Lockstep readers (the other end of a prompt-and-response exchange, which sends its next piece only after the caller has received every token completed by the pieces sent so far): a Read issued while such a token is still withheld would never return there, and is reported. " +
 					"distinct = the input (enumerated); non-trivial = it contains a quote or backslash",
-				Required:     []string{"inputs", "state_class_pairs_covered_of_42", "scanner_fragmentations", "rest_calls", "shell_inputs_dash", "shell_inputs_bash", "incomplete_inputs", "all_byte_values", "concurrent_splits", "long_inputs", "rest_after_reset", "rest_asked_twice", "rune_sweep_inputs", "position_sweep_inputs", "rest_readers_kept_across_gc", "reset_after_rest", "reset_onto_own_rest", "huge_inputs_one_byte_reads", "lockstep_reader_scans"},
+				Required:     []string{"inputs", "state_class_pairs_covered_of_42", "scanner_fragmentations", "rest_calls", "shell_inputs_dash", "shell_inputs_bash", "incomplete_inputs", "all_byte_values", "concurrent_splits", "long_inputs", "rest_after_reset", "rest_asked_twice", "rune_sweep_inputs", "position_sweep_inputs", "rest_readers_kept_across_gc", "reset_after_rest", "reset_onto_own_rest", "huge_inputs_one_byte_reads", "lockstep_reader_scans", "tokens_kept_across_rest_and_reset"},
 				Exhaustive:   true,
 				Assumptions:  []string{"reference tokenizer written from XCU 2.2 with the package's documented deviation: inside double quotes a backslash escapes only the double quote, backslash and newline; $ and ` are ordinary bytes", "dash and bash (+B, LC_ALL=C) as installed"},
 				CoverPkgs:    []string{"github.com/creachadair/mds/shell"},
@@ -395,12 +396,28 @@ func (m *c16mon) check(in string, r *rand.Rand, deep bool) bool {
 			} else {
 				sc = shell.NewScanner(&chunkReader{data: in, sizes: sizes})
 			}
+			// the tokens handed out before Rest are kept (the strings themselves,
+			// and copies of their contents made at once) and compared at the end
+			var keptTok, keptCopy []string
 			for j := 0; j < k; j++ {
 				if !sc.Next() {
 					c.Fail(data, "Next false before token %d of %d", j+1, len(want))
 					panic(errStop)
 				}
+				if j >= k-3 {
+					t := sc.Text()
+					keptTok, keptCopy = append(keptTok, t), append(keptCopy, strings.Clone(t))
+				}
 			}
+			defer func(k int) {
+				for j := range keptTok {
+					if keptTok[j] != keptCopy[j] {
+						c.Fail(data, "a token handed out by Text() before Rest() (%d tokens read) was %q then and reads %q after the later calls on the same scanner", k, keptCopy[j], keptTok[j])
+						return
+					}
+				}
+				c.Add("tokens_kept_across_rest_and_reset", int64(len(keptTok)))
+			}(k)
 			off := 0
 			if k > 0 {
 				off = want[k-1].End
